@@ -45,10 +45,10 @@ pub enum ShiftKind {
 
 pub fn shift(kind: ShiftKind) -> PShift {
     match kind {
-        ShiftKind::Closed => PShift { start_loc: 0, start_earliest: 0., start_latest: None, end: Some((0, 1000.)), breaks: vec![], reloads: vec![], required_breaks: vec![] },
-        ShiftKind::Open => PShift { start_loc: 0, start_earliest: 0., start_latest: None, end: None, breaks: vec![], reloads: vec![], required_breaks: vec![] },
-        ShiftKind::TightEnd => PShift { start_loc: 0, start_earliest: 0., start_latest: None, end: Some((0, 160.)), breaks: vec![], reloads: vec![], required_breaks: vec![] },
-        ShiftKind::StartLatest => PShift { start_loc: 0, start_earliest: 0., start_latest: Some(0.), end: Some((0, 1000.)), breaks: vec![], reloads: vec![], required_breaks: vec![] },
+        ShiftKind::Closed => PShift { start_loc: 0, start_earliest: 0., start_latest: None, end: Some((0, 1000.)), breaks: vec![], reloads: vec![], required_breaks: vec![], required_offset: false },
+        ShiftKind::Open => PShift { start_loc: 0, start_earliest: 0., start_latest: None, end: None, breaks: vec![], reloads: vec![], required_breaks: vec![], required_offset: false },
+        ShiftKind::TightEnd => PShift { start_loc: 0, start_earliest: 0., start_latest: None, end: Some((0, 160.)), breaks: vec![], reloads: vec![], required_breaks: vec![], required_offset: false },
+        ShiftKind::StartLatest => PShift { start_loc: 0, start_earliest: 0., start_latest: Some(0.), end: Some((0, 1000.)), breaks: vec![], reloads: vec![], required_breaks: vec![], required_offset: false },
     }
 }
 
@@ -413,14 +413,21 @@ pub fn family_cond(_tier: Tier) -> Vec<PProblem> {
     for loc in [None, Some(2usize)] {
         for window in [(30., 60.), (0., 10.), (500., 600.)] {
             let mut s = shift(ShiftKind::StartLatest);
-            s.breaks = vec![PBreak { time: window, duration: 7., loc, tag: Some("lunch".into()) }];
-            out.push(base(format!("cond/break/{loc:?}/{window:?}"), deliveries(3), vec![vehicle_type("v", 1, &[5], vec![s])]));
+            s.breaks = vec![PBreak { time: window, duration: 7., loc, tag: Some("lunch".into()), offset: false, policy: None }];
+            out.push(base(format!("cond/break/{loc:?}/{window:?}"), deliveries(3), vec![vehicle_type("v", 1, &[5], vec![s.clone()])]));
+            // the same with the window written as offsets and with the other skip policy
+            let mut s2 = s.clone();
+            s2.breaks[0].offset = true;
+            out.push(base(format!("cond/break-offset/{loc:?}/{window:?}"), deliveries(3), vec![vehicle_type("v", 1, &[5], vec![s2])]));
+            let mut s3 = s;
+            s3.breaks[0].policy = Some("skip-if-arrival-before-end".into());
+            out.push(base(format!("cond/break-policy/{loc:?}/{window:?}"), deliveries(4), vec![vehicle_type("v", 2, &[5], vec![s3])]));
         }
     }
     // two shifts per vehicle
     for n in 2..=4 {
-        let s1 = PShift { start_loc: 0, start_earliest: 0., start_latest: None, end: Some((0, 100.)), breaks: vec![], reloads: vec![], required_breaks: vec![] };
-        let s2 = PShift { start_loc: 0, start_earliest: 300., start_latest: None, end: Some((0, 500.)), breaks: vec![], reloads: vec![], required_breaks: vec![] };
+        let s1 = PShift { start_loc: 0, start_earliest: 0., start_latest: None, end: Some((0, 100.)), breaks: vec![], reloads: vec![], required_breaks: vec![], required_offset: false };
+        let s2 = PShift { start_loc: 0, start_earliest: 300., start_latest: None, end: Some((0, 500.)), breaks: vec![], reloads: vec![], required_breaks: vec![], required_offset: false };
         let mut jobs = deliveries(n);
         jobs[0].tasks[0].places[0].times = vec![(320., 400.)];
         out.push(base(format!("cond/two-shifts/n{n}"), jobs.clone(), vec![vehicle_type("v", 1, &[2], vec![s1.clone(), s2.clone()])]));
@@ -578,7 +585,7 @@ pub fn family_line12() -> Vec<PProblem> {
                 .filter(|i| *i != depot)
                 .map(|i| job(&format!("job{}", i as i64 - 6), vec![task(Delivery, vec![place(i, 1., &[], None)], &[1])]))
                 .collect();
-            let mut v = vehicle_type("my_vehicle", 2, &[6], vec![PShift { start_loc: depot, start_earliest: 0., start_latest: None, end: None, breaks: vec![], reloads: vec![], required_breaks: vec![] }]);
+            let mut v = vehicle_type("my_vehicle", 2, &[6], vec![PShift { start_loc: depot, start_earliest: 0., start_latest: None, end: None, breaks: vec![], reloads: vec![], required_breaks: vec![], required_offset: false }]);
             v.fixed = 10.;
             v.cost_distance = 1.;
             v.cost_time = 1.;
@@ -626,9 +633,9 @@ pub fn family_places(_tier: Tier) -> Vec<PProblem> {
         job("s_mix3", vec![task(Service, vec![place(3, 1., &[(0., 5.)], Some("first")), place(2, 2., &[], None), place(4, 1., &[(0., 5.)], Some("third"))], &[])]),
     ];
     let shifts = [
-        PShift { start_loc: 0, start_earliest: 0., start_latest: None, end: Some((0, 1000.)), breaks: vec![], reloads: vec![], required_breaks: vec![] },
-        PShift { start_loc: 0, start_earliest: 0., start_latest: None, end: Some((2, 1000.)), breaks: vec![], reloads: vec![], required_breaks: vec![] },
-        PShift { start_loc: 0, start_earliest: 0., start_latest: None, end: None, breaks: vec![], reloads: vec![], required_breaks: vec![] },
+        PShift { start_loc: 0, start_earliest: 0., start_latest: None, end: Some((0, 1000.)), breaks: vec![], reloads: vec![], required_breaks: vec![], required_offset: false },
+        PShift { start_loc: 0, start_earliest: 0., start_latest: None, end: Some((2, 1000.)), breaks: vec![], reloads: vec![], required_breaks: vec![], required_offset: false },
+        PShift { start_loc: 0, start_earliest: 0., start_latest: None, end: None, breaks: vec![], reloads: vec![], required_breaks: vec![], required_offset: false },
     ];
     let mut out = vec![];
     for k in 1..=3 {
@@ -659,10 +666,10 @@ pub fn family_fleet4(_tier: Tier) -> Vec<PProblem> {
                 let mut s = shift(ShiftKind::Closed);
                 s.end = Some((0, 400.));
                 match kind {
-                    0 => s.breaks = vec![PBreak { time: (30., 90.), duration: 7., loc: None, tag: Some("lunch".into()) }],
+                    0 => s.breaks = vec![PBreak { time: (30., 90.), duration: 7., loc: None, tag: Some("lunch".into()), offset: false, policy: None }],
                     1 => s.reloads = vec![PReload { loc: 0, duration: 4., times: vec![], tag: Some("r1".into()), resource_id: None }],
                     _ => {
-                        s.breaks = vec![PBreak { time: (30., 90.), duration: 7., loc: None, tag: Some("lunch".into()) }];
+                        s.breaks = vec![PBreak { time: (30., 90.), duration: 7., loc: None, tag: Some("lunch".into()), offset: false, policy: None }];
                         s.reloads = vec![PReload { loc: 0, duration: 4., times: vec![], tag: Some("r1".into()), resource_id: None }];
                     }
                 }
@@ -757,10 +764,13 @@ pub fn family_reqbreak() -> Vec<PProblem> {
         for (wi, window) in [(10., 15.), (30., 40.), (60., 80.), (200., 210.)].iter().enumerate() {
             for duration in [7., 25.] {
                 for fleet in [1usize, 2] {
-                    let mut s = shift(ShiftKind::StartLatest);
-                    s.required_breaks = vec![(window.0, window.1, duration)];
-                    let jobs: Vec<PJob> = (0..n).map(|i| job(&format!("d{i}"), vec![task(Delivery, vec![place(1 + i % 4, 2., &[], None)], &[1])])).collect();
-                    out.push(base(format!("reqbreak/n{n}/w{wi}/d{duration}/f{fleet}"), jobs, vec![vehicle_type("v", fleet, &[4], vec![s])]).fit_matrices());
+                    for offset in [false, true] {
+                        let mut s = shift(ShiftKind::StartLatest);
+                        s.required_breaks = vec![(window.0, window.1, duration)];
+                        s.required_offset = offset;
+                        let jobs: Vec<PJob> = (0..n).map(|i| job(&format!("d{i}"), vec![task(Delivery, vec![place(1 + i % 4, 2., &[], None)], &[1])])).collect();
+                        out.push(base(format!("reqbreak/n{n}/w{wi}/d{duration}/f{fleet}/{}", if offset { "offset" } else { "exact" }), jobs, vec![vehicle_type("v", fleet, &[4], vec![s])]).fit_matrices());
+                    }
                 }
             }
         }
